@@ -117,6 +117,24 @@ def oracle_minvar(p):
     return out
 
 
+def oracle_class(p):
+    """the class form: pminvar(...).psd is the function's estimate for the WHOLE record on the requested NFFT (two-sided for
+    complex data; for real data the non-negative-frequency half, doubled) - for NFFT below, equal to and above the data length"""
+    sp = _sp()
+    x = np.asarray(p["x"])
+    m, nfft, fs = p["m"], p["nfft"], p["fs"]
+    o = sp.pminvar(x, m, NFFT=nfft, sampling=fs, scale_by_freq=False)
+    got = np.asarray(o.psd)
+    ref = np.asarray(sp.minvar(x, m, sampling=fs, NFFT=nfft)[0])
+    if not np.iscomplexobj(x):
+        L = nfft // 2 + 1 if nfft % 2 == 0 else (nfft + 1) // 2
+        ref = 2 * ref[:L]
+    if got.shape != ref.shape or rel(got, ref) > 1e-9:
+        return ["pminvar(N=%d, m=%d, NFFT=%d, %s).psd is not the minimum-variance estimate of the record on that grid (rel err %.2e)" % (
+            len(x), m, nfft, "complex" if np.iscomplexobj(x) else "real", rel(got, ref) if got.shape == ref.shape else float("inf"))]
+    return []
+
+
 def impl_ident(p):
     # nothing to compare with on the implementation side: the identity is checked inside the model (exact rationals)
     return []
@@ -157,6 +175,7 @@ def _tags(p):
 
 KINDS = {
     "minvar": {"impl": impl_minvar, "model": model_minvar, "oracle": oracle_minvar, "rtol": 1e-7, "atol": 1e-300, "key": _key, "tags": _tags},
+    "class": {"oracle": oracle_class, "key": _key, "tags": lambda p: ["class:nfft" + ("<N" if p["nfft"] < len(p["x"]) else ">=N")]},
     "ident": {"oracle": oracle_ident, "key": _key, "tags": lambda p: ["ident:" + ("complex" if np.iscomplexobj(p["x"]) else "real")]},
 }
 
@@ -184,6 +203,16 @@ def gen(rng, nrng, tier):
         if not _ok(x, m):
             continue
         yield ("minvar", {"x": x, "m": m, "nfft": nfft, "fs": [1.0, 2.5, 100.0][i % 3]})
+    for i in range(24 if tier == "quick" else 300):        # class form, NFFT below / at / above the record length
+        cplx = bool(i % 2)
+        N = int(nrng.integers(12, 80))
+        x, dk = gen_data(nrng, N, cplx, kind=kinds[i % 4])
+        x = np.asarray(x, dtype=complex if cplx else float)
+        m = int(nrng.integers(2, min(N // 2, 8) + 1))
+        if not _ok(x, m):
+            continue
+        nfft = [2 * m, 2 * m + 1, max(2 * m, N // 2), N - 1, N, N + 1, 2 * N][i % 7]
+        yield ("class", {"x": x, "m": m, "nfft": max(nfft, 2 * m), "fs": [1.0, 2.5][i % 2]})
     ni = 24 if tier == "quick" else 300
     for i in range(ni):
         cplx = bool(i % 2)
